@@ -255,7 +255,7 @@ func c17(r *core.Report) {
 	}
 
 	// ---- C17-FP-CANON
-	r.Rule("C17-FP-CANON", "default fingerprinters hash the canonical re-marshalled key only, with the same hash everywhere", 3)
+	r.Rule("C17-FP-CANON", "default fingerprinters hash the canonical re-marshalled key only, with the same hash everywhere", 7)
 	marshalPK := needFn(r, "f/x509", "MarshalPublicKey")
 	hashes := map[string]string{}
 	for _, fp := range [][2]string{{"s/p2pkeswarm", "DefaultFingerprinter"}, {"s/quicswarm", "DefaultFingerprinter"}} {
@@ -291,6 +291,70 @@ func c17(r *core.Report) {
 					okIn = true
 				}
 			}
+		}
+		// the key argument is used for nothing but the canonical re-marshalling: any
+		// other use (a field read feeding a cache key, a log, a second hash) makes the
+		// result depend on part of the key or on history
+		{
+			prm := fn.Params[0]
+			var uses []ssa.Instruction
+			for _, ref := range *prm.Referrers() {
+				if st, ok := ref.(*ssa.Store); ok && st.Val == ssa.Value(prm) {
+					if a, ok := st.Addr.(*ssa.Alloc); ok {
+						for _, r2 := range *a.Referrers() {
+							if r2 != ssa.Instruction(st) {
+								uses = append(uses, r2)
+							}
+						}
+						continue
+					}
+				}
+				uses = append(uses, ref)
+			}
+			okOnly := true
+			bad := ""
+			for _, u := range uses {
+				if _, isDbg := u.(*ssa.DebugRef); isDbg {
+					continue
+				}
+				if cc, ok := u.(*ssa.Call); ok && core.IsCallToFn(cc.Common(), marshalPK) {
+					continue
+				}
+				okOnly = false
+				bad = p.Pos(u.Pos())
+			}
+			r.Check(okOnly, "C17-FP-CANON", c+" key used only canonically", p.Pos(fn.Pos()), "the key argument is used only as the argument of x509.MarshalPublicKey", "the fingerprinter uses the key other than through its canonical encoding (at "+bad+"): the peer id can depend on part of the key (e.g. its bytes without the algorithm) or on what was fingerprinted before")
+			// and every return value comes from the hash
+			okRet := true
+			for _, ret := range core.Returns(fn) {
+				for _, v := range core.ReturnValues(ret, 0) {
+					if core.DerivesFromDirect(v, func(x ssa.Value) bool { return x == ssa.Value(hashCall) }) || returnsHashOutput(v, hashCall) {
+						continue
+					}
+					// a memo is acceptable when it is keyed by the canonical encoding
+					fromCanon := func(k ssa.Value) bool {
+						return core.DerivesFromDirect(k, func(y ssa.Value) bool {
+							c2, _, ok := core.CallResult(y)
+							return ok && core.IsCallToFn(c2.Common(), marshalPK)
+						})
+					}
+					if core.DerivesFromDirect(v, func(x ssa.Value) bool {
+						switch y := x.(type) {
+						case *ssa.Lookup:
+							return fromCanon(y.Index)
+						case *ssa.Extract:
+							if c2, ok := y.Tuple.(*ssa.Call); ok && core.CalleeName(c2.Common()) == "(*sync.Map).Load" {
+								return fromCanon(c2.Call.Args[1])
+							}
+						}
+						return false
+					}) {
+						continue
+					}
+					okRet = false
+				}
+			}
+			r.Check(okRet, "C17-FP-CANON", c+" result", p.Pos(fn.Pos()), "every returned id is the hash output", "a path returns an id that is not the hash of the canonical key")
 		}
 		r.Check(okIn, "C17-FP-CANON", c+" input", p.Pos(hashCall.Pos()), "the hash input is x509.MarshalPublicKey(nil, key) of the key argument", "the fingerprint is not a hash of the canonical re-marshalled key alone (wire bytes or extra data make one key have several identities)")
 	}
@@ -413,4 +477,19 @@ func isThinDelegator(fn *ssa.Function) bool {
 var infallibleWriters = map[string]bool{
 	"(*bytes.Buffer).Write": true, "(*bytes.Buffer).WriteString": true, "(*bytes.Buffer).WriteByte": true,
 	"(*strings.Builder).Write": true, "(*strings.Builder).WriteString": true, "(*strings.Builder).WriteByte": true,
+}
+
+// returnsHashOutput: v is (a load of) the buffer the hash call wrote into
+// (sha3.ShakeSum256(ret[:], data) fills its first argument).
+func returnsHashOutput(v ssa.Value, hash *ssa.Call) bool {
+	if len(hash.Call.Args) == 0 {
+		return false
+	}
+	out := hash.Call.Args[0]
+	// out = slice of an array cell; v = load of that cell
+	cell := core.CellOf(v)
+	if cell == nil {
+		return false
+	}
+	return core.DerivesFromDirect(out, func(x ssa.Value) bool { return x == ssa.Value(cell) })
 }
